@@ -17,13 +17,15 @@ Record lrow := { score : Q;                  (* match_weight *)
                  clerical : option Q;        (* clerical_match_score, NULL allowed *)
                  found : bool }.             (* found_by_blocking_rules *)
 
-(* match_weight_round_to_nearest:  cast(r as float) * round(match_weight / r)
-   (SQL round: half away from zero; r a dyadic rational so the float arithmetic is exact) *)
+(* match_weight_round_to_nearest = r:   cast(r as float) * round(match_weight / r)
+   SQL round: half away from zero.  The two occurrences of r are different numbers on an
+   engine: [rm] is r as a 32-bit float (DuckDB) and [rd] is r as a double; for a dyadic r
+   (0.25, 0.5, 1, 2 ..) both equal r and the engine arithmetic is exact. *)
 Definition round_half_away (x : Q) : Z :=
   if Qle_bool 0 x then Qfloor (x + (1 # 2)) else Qceiling (x - (1 # 2)).
-Definition round_to (r x : Q) : Q := (r * inject_Z (round_half_away (x / r)))%Q.
-Definition rounding (r : option Q) : Q -> Q :=
-  match r with None => fun x => x | Some r => round_to r end.
+Definition round_to (rm rd x : Q) : Q := (rm * inject_Z (round_half_away (x / rd)))%Q.
+Definition rounding (r : option (Q * Q)) : Q -> Q :=
+  match r with None => fun x => x | Some (rm, rd) => round_to rm rd end.
 
 (* ------------------------------------------------------------------ CTE 1
    select *, <rnd match_weight> as truth_threshold,
